@@ -21,6 +21,9 @@ package inode
 
 // Write-through typestate (C10-S1): a store to an on-disk field makes the
 // cached inode differ from the transaction until the next WriteInode.
+// Z3 (C12): a file shrinks only to the size for which zeroTail has just cleared
+// the rest of its last kept block; growing is always allowed.
+//@ writeguard inode.Inode.Size by value >= oldvalue || tailzeroedto[this.Inum] == value @C12
 //@ onwrite inode.Inode.Kind: dirtyinum = ite(changed, store(dirtyinum, this.Inum, true), dirtyinum)
 //@ onwrite inode.Inode.Nlink: dirtyinum = ite(changed, store(dirtyinum, this.Inum, true), dirtyinum)
 //@ onwrite inode.Inode.Gen: dirtyinum = ite(changed, store(dirtyinum, this.Inum, true), dirtyinum)
@@ -224,7 +227,7 @@ package inode
 //@   requires locked(ip) && inodeInv(ip) && txnOK(op)
 //@   requires [index] index < 10 @C11
 //@   allocates buf.Buf
-//@   modifies ip.blks[*], dirtyinum, buf.Buf.dirty, []uint8@buf.Buf.Data, op.freeBnums, []uint64@alloctxn.AllocTxn.freeBnums
+//@   modifies ip.blks[*], dirtyinum, buf.Buf.dirty, []uint8@buf.Buf.Data, op.freeBnums, []uint64@alloctxn.AllocTxn.freeBnums, zeroed
 //@   ensures [F3-cleared] ip.blks[index] == 0 && (forall k uint64 :: k < 10 && k != index ==> ip.blks[k] == old(ip.blks[k])) @C05
 //@   ensures [I1-inode] inodeInv(ip) @C04
 //@   ensures listsValid(op) && listsStable(op) && othersClean(ip)
@@ -236,7 +239,7 @@ package inode
 //@   requires [Fn4-range] inRange(level, bn) @C11
 //@   decreases level
 //@   allocates buf.Buf, marshal.Enc, marshal.Dec, cell:uint64
-//@   modifies buf.Buf.dirty, []uint8@buf.Buf.Data, op.freeBnums, []uint64@alloctxn.AllocTxn.freeBnums
+//@   modifies buf.Buf.dirty, []uint8@buf.Buf.Data, op.freeBnums, []uint64@alloctxn.AllocTxn.freeBnums, zeroed
 //@   ensures [F3-rootornull] result == 0 || result == root @C05
 //@   ensures [F3-exact] root != 0 ==> result == ite(level == 0 || bn == 0, root, 0) @C05
 //@   ensures listsValid(op) && listsStable(op)
@@ -245,7 +248,7 @@ package inode
 //@   props C05 C01 C04 C10 C11 C06 C12
 //@   requires locked(ip) && inodeInv(ip) && txnOK(op)
 //@   allocates buf.Buf, marshal.Enc, marshal.Dec, cell:uint64, []uint8
-//@   modifies ip.ShrinkSize, ip.blks[*], dirtyinum, wroteinum, buf.Buf.dirty, []uint8@buf.Buf.Data, op.freeBnums, []uint64@alloctxn.AllocTxn.freeBnums
+//@   modifies ip.ShrinkSize, ip.blks[*], dirtyinum, wroteinum, buf.Buf.dirty, []uint8@buf.Buf.Data, op.freeBnums, []uint64@alloctxn.AllocTxn.freeBnums, zeroed
 //@   ensures [F2-more] result <==> ip.IsShrinking() @C05
 //@   ensures [R7-persisted] !dirtyinum[ip.Inum] && othersClean(ip) @C01 @C10
 //@   ensures [F3-monotone] ip.ShrinkSize <= old(ip.ShrinkSize) && ip.Size == old(ip.Size) @C05
@@ -260,11 +263,13 @@ package inode
 //@   requires [below] sz < ip.Size @C11
 //@   preserves [allocInv] allocInv() @C15 @C04
 //@   allocates buf.Buf, marshal.Enc, marshal.Dec, cell:uint64
-//@   modifies ip.blks[*], dirtyinum, abits, atxn.allocBnums, []uint64@alloctxn.AllocTxn.allocBnums, []uint8@buf.Buf.Data, buf.Buf.dirty
+//@   modifies ip.blks[*], dirtyinum, abits, atxn.allocBnums, []uint64@alloctxn.AllocTxn.allocBnums, []uint8@buf.Buf.Data, buf.Buf.dirty, tailzeroedto
 //@   ensures [ibits-same] abits[theIalloc] == old(abits)[theIalloc] @C05
 //@   ensures [I1-inode] inodeInv(ip) && ip.Size == old(ip.Size) && ip.ShrinkSize == old(ip.ShrinkSize) @C04
 //@   ensures listsValid(atxn) && listsStable(atxn) && othersClean(ip)
-//@   loop 0 invariant b <= 4096 && len(buf.Data) == 4096
+//@   ghostexit tailzeroedto = store(tailzeroedto, ip.Inum, sz)
+//@   ensureslocal [Z3-tail] len(buf.Data) == 4096 && (forall k uint64 :: byteoff <= k && k < 4096 ==> buf.Data[k] == 0) @C12
+//@   loop 0 invariant b <= 4096 && byteoff <= b && len(buf.Data) == 4096 && (forall k uint64 :: byteoff <= k && k < b ==> buf.Data[k] == 0)
 //@   loop 0 decreases 4096 - b
 //@   loop 0 invariant [ibits] abits[theIalloc] == old(abits)[theIalloc]
 
@@ -274,7 +279,7 @@ package inode
 //@   requires [Q3-max] sz <= 1073774592 @C19 @C11
 //@   preserves [allocInv] allocInv() @C15 @C04
 //@   allocates buf.Buf, marshal.Enc, marshal.Dec, cell:uint64, []uint8
-//@   modifies ip.Size, ip.ShrinkSize, ip.blks[*], dirtyinum, wroteinum, abits, atxn.allocBnums, []uint64@alloctxn.AllocTxn.allocBnums, atxn.freeBnums, []uint64@alloctxn.AllocTxn.freeBnums, []uint8@buf.Buf.Data, buf.Buf.dirty
+//@   modifies ip.Size, ip.ShrinkSize, ip.blks[*], dirtyinum, wroteinum, abits, atxn.allocBnums, []uint64@alloctxn.AllocTxn.allocBnums, atxn.freeBnums, []uint64@alloctxn.AllocTxn.freeBnums, []uint8@buf.Buf.Data, buf.Buf.dirty, zeroed, tailzeroedto
 //@   ensures [ibits-same] abits[theIalloc] == old(abits)[theIalloc] @C05
 //@   ensures [Fn3-size] ip.Size == sz @C02
 //@   ensures [F2-more] result <==> ip.IsShrinking() @C05
